@@ -11,27 +11,50 @@ from vt.gen import corpus, exprgen, jast
 
 PID = "C29"
 LEVEL = "exploration"
-TECHNIQUE = "differential monitor against an isolated render + deep input fingerprints; concurrent stress with sys.monitoring LINE-event yield injection inside jinja2 code"
-RULE = ("generated programs plus stateful templates (imported modules with module-level namespace / "
-        "cycler / joiner, loop.changed, loop.cycle): (a) data, environment globals and template globals "
-        "deep-fingerprinted before and after every render; (b) the same template rendered repeatedly, "
+TECHNIQUE = "differential monitor against an isolated render + deep typed input fingerprints (generated programs and an enumerated filter x arguments x environment-flavour x container-value matrix); concurrent stress with sys.monitoring LINE-event yield injection inside jinja2 code"
+RULE = ("generated programs (autoescape on for 40% of them) plus stateful templates (imported modules with "
+        "module-level namespace / cycler / joiner, loop.changed, loop.cycle): (a) data, environment globals, "
+        "template globals and policies deep-fingerprinted (values AND exact element classes: [1] != ['1'] != "
+        "[Markup('1')]) before and after every render; (b) the same template rendered repeatedly, "
         "interleaved with the other templates of its set, must equal the render in a fresh isolated "
         "environment; (c) 8-16 threads render a shared pool of templates (also compiling them "
         "concurrently) with switch interval 1e-6 and random sleep(0) injected at LINE events of "
-        "jinja2 code; every output must equal the isolated one. distinct = program shapes (a,b) + "
-        "distinct thread-switch signatures (c)")
-LEVEL_TEXT = "held on the generated programs, orders and observed interleavings only"
-ASSUMPTIONS = ["data objects provide no mutating callables", "thread interleavings are sampled, not enumerated"]
+        "jinja2 code; every output must equal the isolated one; (d) filter matrix: EVERY filter registered "
+        "in a default environment x 24 generic argument forms (none, container-valued data argument, numbers, "
+        "strings, attribute names, test names, filter names, keyword forms) - result printed, consumed by "
+        "|list and consumed by a loop - x 7 environment flavours (plain, autoescape, async, autoescape+async, "
+        "sandboxed+autoescape, immutable sandbox, modified policies+autoescape) x 16 values (lists of "
+        "numbers / strings / Markup / mixed scalars / nested lists / dicts / pairs / objects, tuples, set, "
+        "dicts, str, int) supplied in rotation as render data, environment global or template global, "
+        "fingerprinted before and after each render (most combinations raise: an execution as well). "
+        "distinct = program shapes (a,b) + distinct thread-switch signatures (c) + (filter, argument form, "
+        "flavour, value) combinations that rendered without error (d)")
+LEVEL_TEXT = "held on the generated programs, orders, observed interleavings and the enumerated filter matrix only"
+ASSUMPTIONS = ["data objects provide no mutating callables", "thread interleavings are sampled, not enumerated",
+               "the filter matrix is statically partitioned over the shards; in the quick tier each shard runs at "
+               "least half of its (filter, argument form) templates even when the time box is exceeded, and half "
+               "of the values per (template, flavour)",
+               "template.globals is the documented ChainMap view over the environment globals, so one fingerprint "
+               "of it covers both in the matrix"]
 NSHARDS = {"quick": 16, "thorough": 16}
 BUDGET_S = {"quick": 22, "thorough": 500}
+_FLAVOURS = ("plain", "autoescape", "async", "autoescape+async", "sandbox+autoescape", "immutable-sandbox",
+             "policies+autoescape")
+_SRC = ("data", "env.globals", "template.globals")
 FLOORS = {
     "quick": {"evaluations": 3000, "distinct": 300,
-              "counters": {"fingerprint_checks": 1500, "repeat_compares": 1500, "thread_renders": 1500,
-                           "yield_injections": 500, "stateful_templates": 50}},
+              "counters": dict({"fingerprint_checks": 1500, "repeat_compares": 1500, "thread_renders": 1500,
+                                "yield_injections": 500, "stateful_templates": 50, "autoescape_cases": 90,
+                                "matrix_templates": 300, "matrix_renders": 9000, "matrix_renders_ok": 1500},
+                               **{"matrix_renders:" + f: 1200 for f in _FLAVOURS},
+                               **{"matrix_source:" + f: 3000 for f in _SRC})},
     "thorough": {"evaluations": 60000, "distinct": 5000,
-                 "counters": {"fingerprint_checks": 30000, "repeat_compares": 30000,
-                              "thread_renders": 40000, "yield_injections": 20000,
-                              "stateful_templates": 1000}},
+                 "counters": dict({"fingerprint_checks": 30000, "repeat_compares": 30000,
+                                   "thread_renders": 40000, "yield_injections": 20000,
+                                   "stateful_templates": 1000, "autoescape_cases": 1000,
+                                   "matrix_templates": 1000, "matrix_renders": 70000, "matrix_renders_ok": 12000},
+                                  **{"matrix_renders:" + f: 10000 for f in _FLAVOURS},
+                                  **{"matrix_source:" + f: 12000 for f in _SRC})},
 }
 
 
@@ -42,9 +65,12 @@ def fp(v, depth=0):
         return {"$d": [[fp(k, depth + 1), fp(x, depth + 1)] for k, x in v.items()]}
     if isinstance(v, (list, tuple)):
         return [type(v).__name__] + [fp(x, depth + 1) for x in v]
-    if isinstance(v, exprgen.Obj):
-        return {"$obj": fp(v.__dict__, depth + 1)}
-    if isinstance(v, (str, int, float, bool)) or v is None:
+    if isinstance(v, (set, frozenset)):
+        return [type(v).__name__] + sorted((fp(x, depth + 1) for x in v), key=repr)
+    if isinstance(v, exprgen.Obj) or type(v).__module__.startswith("vt."):
+        return {"$obj": type(v).__name__, "d": fp(getattr(v, "__dict__", {}), depth + 1)}
+    if isinstance(v, (str, bytes, int, float, bool)) or v is None:
+        # the exact class is part of the value: 1 / '1' / True / Markup('1') all differ
         return [type(v).__name__, v]
     return repr(type(v))
 
@@ -149,12 +175,175 @@ def importer_globals_check(ctx):
                     break
 
 
+# ---------------------------------------------------------------------------
+# (d) the built-in filters over container data, in every environment flavour
+# ---------------------------------------------------------------------------
+class Rec:
+    """Plain record object (attributes only) used as container element."""
+
+    def __init__(self, **kw):
+        self.__dict__.update(kw)
+
+    def __repr__(self):
+        return "Rec(%s)" % ",".join(sorted(self.__dict__))
+
+
+def matrix_values():
+    """name -> factory of a FRESH container (or scalar) value under the filter."""
+    from markupsafe import Markup
+
+    return [
+        ("list-num", lambda: [1, 2, 3.5]),
+        ("list-int-unsorted", lambda: [3, 1, 2, 1]),
+        ("list-str", lambda: ["b", "a <x>", "C c"]),
+        ("list-markup-mixed", lambda: [Markup("<b>"), 1, "<i>"]),
+        ("list-mixed-scalars", lambda: [None, 0, "", 1.5, True]),
+        ("list-nested", lambda: [[1, 2], [3, [4, 5]], []]),
+        ("list-of-dicts", lambda: [{"k": 2, "n": [1]}, {"k": 1, "n": []}, {"k": 2, "n": [3]}]),
+        ("list-of-pairs", lambda: [["b", 2], ["a", [1]]]),
+        ("list-of-objects", lambda: [Rec(k=2, n=[1]), Rec(k=1, n=[]), exprgen.Obj({"k": 3}, {"k": 4})]),
+        ("tuple-num", lambda: (2, 1, 3)),
+        ("tuple-of-tuples", lambda: (("b", 2), ("a", 1))),
+        ("set-num", lambda: {3, 1, 2}),
+        ("dict-nested", lambda: {"k": [2, 1], "b": {"c": 3}, "a": 1}),
+        ("dict-scalars", lambda: {"b": 2, "A": 1, "c": "<x>"}),
+        ("str", lambda: "a <b> http://x.y/ c d"),
+        ("int", lambda: 3),
+    ]
+
+
+def matrix_arg_values():
+    return [("list", lambda: [1, 2]), ("dict", lambda: {"k": [0], "z": 1}), ("tuple", lambda: (9, "s")),
+            ("str", lambda: ", "), ("nested", lambda: [[7], {"q": [8]}])]
+
+
+# argument forms tried with EVERY filter (most combinations raise - that is an execution too);
+# `a` is a second, container-valued piece of render data
+ARG_FORMS = ["", "a", "2", "','", "'k'", "attribute='k'", "',', 'k'", "2, a", "'k', a", "'k', default=a",
+             "'in', a", "'odd'", "'k', 'in', a", "'list'", "'join', ','", "'default', a", "start=a",
+             "true", "reverse=true", "'%s', a", "'k', 'equalto', 2", "1, 'k'", "fill_with=a", "a, a"]
+# one template per (filter, arguments): the result printed, consumed by |list and consumed by a loop
+# (lazy filters only touch their input when consumed)
+USE_FORM = "{{ v|%s }}|{{ v|%s|list }}|{%% for x in v|%s %%}{{ x }};{%% endfor %%}"
+SOURCES = ["data", "env.globals", "template.globals"]
+
+
+def matrix_configs():
+    from jinja2.sandbox import ImmutableSandboxedEnvironment, SandboxedEnvironment
+
+    pol = {"json.dumps_kwargs": {"sort_keys": False, "indent": 1}, "truncate.leeway": 0,
+           "urlize.rel": "nofollow", "urlize.extra_schemes": ["x:"]}
+    return [("plain", None, {}, None), ("autoescape", None, {"autoescape": True}, None),
+            ("async", None, {"enable_async": True}, None),
+            ("autoescape+async", None, {"autoescape": True, "enable_async": True}, None),
+            ("sandbox+autoescape", SandboxedEnvironment, {"autoescape": True}, None),
+            ("immutable-sandbox", ImmutableSandboxedEnvironment, {}, None),
+            ("policies+autoescape", None, {"autoescape": True}, pol)]
+
+
+def matrix_env(cfg):
+    import copy
+
+    import jinja2
+
+    _, cls, kw, pol = cfg
+    env = (cls or jinja2.Environment)(extensions=corpus.EXTENSIONS, **kw)
+    if pol:
+        env.policies.update(copy.deepcopy(pol))
+    return env
+
+
+def matrix_render(env, t, vname, aname, source):
+    """One observed render of the compiled template t; returns (outcome, before, after) with
+    fingerprints of the data, the value, the globals and the policies."""
+    vals, args = dict(matrix_values()), dict(matrix_arg_values())
+    v, a = vals[vname](), args[aname]()
+    data = {"a": a, "other": [1, "x"]}
+    if source == "data":
+        data["v"] = v
+    elif source == "env.globals":
+        env.globals["v"] = v
+    else:
+        t.globals["v"] = v
+    try:
+        # template.globals is a view over the environment globals too (documented ChainMap)
+        snap = lambda: (fp(data), fp(dict(t.globals)), fp(dict(env.policies)))
+        before = snap()
+        o = util.capture(lambda: t.render(data))
+        after = snap()
+    finally:
+        env.globals.pop("v", None)
+        t.globals.pop("v", None)
+    return o, before, after
+
+
+def matrix_verdict(ctx, f, cfgname, src, vname, aname, source, o, before, after):
+    if before == after:
+        return
+    k = [k for k in range(3) if before[k] != after[k]][0]
+    w = "data" if k == 0 else "env.policies" if k == 2 else source if source != "data" else "globals"
+    ctx.violation(f"mutates:{w}:filter:{f}/{cfgname}",
+                  f"{src!r} rendered in a {cfgname} environment with v={vname} (from {source}), "
+                  f"a={aname} changed {w}: {before[k]} -> {after[k]} (outcome {o!r})",
+                  {"kind": "filter-matrix", "src": src, "cfg": cfgname, "value": vname,
+                   "arg": aname, "source": source, "filter": f})
+
+
+def check_filter_matrix(ctx, rng, share=0.4):
+    """Every filter registered in a default environment x argument forms x environment flavours x
+    container values, the value coming from render data, environment globals or template globals;
+    everything reachable from the inputs is fingerprinted (values AND element types) before and
+    after each render."""
+    import jinja2
+
+    names = sorted(jinja2.Environment().filters)
+    cfgs = matrix_configs()
+    vals, args = matrix_values(), matrix_arg_values()
+    jobs = [(f, ai) for f in names for ai in range(len(ARG_FORMS))]
+    mine = [i for i in range(len(jobs)) if ctx.mine(i)]
+    rng.shuffle(mine)           # the time box must not always cut the same filters
+    envs = [matrix_env(c) for c in cfgs]
+    deadline = ctx.budget_s * share
+    thorough = ctx.tier != "quick"
+    for done, i in enumerate(mine):
+        if done >= len(mine) // 2 and ctx.elapsed() > deadline:
+            ctx.count("matrix_timeboxed_stop")
+            break
+        f, ai = jobs[i]
+        call = f + ("(" + ARG_FORMS[ai] + ")" if ARG_FORMS[ai] else "")
+        src = USE_FORM % (call, call, call)
+        ctx.count("matrix_templates")
+        for ci, cfg in enumerate(cfgs):
+            env = envs[ci]
+            t = util.capture(lambda: env.from_string(src))
+            if not t.ok:
+                ctx.count("matrix_compile_errors")
+                continue
+            for vi, (vname, _) in enumerate(vals):
+                if not thorough and (vi + i + ci) % 2:
+                    continue            # quick: half of the values per (template, flavour)
+                source = SOURCES[(i + vi // 2 + ci) % 3]
+                aname = args[(i + vi) % len(args)][0]
+                o, before, after = matrix_render(env, t.value, vname, aname, source)
+                ctx.ev()
+                ctx.count("matrix_renders")
+                ctx.count("fingerprint_checks")
+                ctx.count("matrix_renders:" + cfg[0])
+                ctx.count("matrix_source:" + source)
+                if o.ok:
+                    ctx.count("matrix_renders_ok")
+                    ctx.dist(["matrix", f, ARG_FORMS[ai], cfg[0], vname])
+                matrix_verdict(ctx, f, cfg[0], src, vname, aname, source, o, before, after)
+
+
 def env_for(case):
     import jinja2
 
+    ae = bool(case.get("autoescape"))
     if "raw" in case:
-        return jinja2.Environment(loader=jinja2.DictLoader(case["raw"]), extensions=corpus.EXTENSIONS)
-    return corpus.make_env(case)
+        return jinja2.Environment(loader=jinja2.DictLoader(case["raw"]), extensions=corpus.EXTENSIONS,
+                                  autoescape=ae)
+    return corpus.make_env(case, autoescape=ae)
 
 
 def names_of(case):
@@ -302,12 +491,16 @@ def run(ctx):
     i = 0
     pool = []
     importer_globals_check(ctx)
+    check_filter_matrix(ctx, ctx.rng("c29-matrix"))
     while ctx.more(i, n, floor=60):
         if i % 6 == 5:
             case = stateful_case(rng.randrange(100))
             ctx.count("stateful_templates")
         else:
             case = corpus.gen_case(rng)
+        if rng.random() < 0.4:
+            case["autoescape"] = True
+            ctx.count("autoescape_cases")
         check_sequential(ctx, case, rng)
         if "raw" not in case:
             ctx.dist(corpus.shape(case))
@@ -329,6 +522,13 @@ def replay(ctx, case):
     rng = random.Random(0)
     if case.get("kind") == "importer-globals":
         importer_globals_check(ctx)
+    elif case.get("kind") == "filter-matrix":
+        cfg = [c for c in matrix_configs() if c[0] == case["cfg"]][0]
+        env = matrix_env(cfg)
+        o, before, after = matrix_render(env, env.from_string(case["src"]), case["value"], case["arg"],
+                                         case["source"])
+        matrix_verdict(ctx, case["filter"], cfg[0], case["src"], case["value"], case["arg"], case["source"],
+                       o, before, after)
     elif "cases" in case:
         for _ in range(20):
             check_threads(ctx, case["cases"], rng, case["nthreads"], 8, True)
